@@ -153,6 +153,18 @@ def step (line : String) : String :=
           | _ => false
         answer model holds
       | _, _ => "bad-op"
+    | ["nw", _, _, journal] =>
+      -- a connection opened by the Transport that kafka.NewWriter built from a Dialer WITH a SASL mechanism: it is the
+      -- Transport path of Model/Auth with `sasl = true` — the write that follows ApiVersions is the SaslHandshake; the
+      -- reference monitor is the same ordering monitor as everywhere
+      let c : Cfg := { path := .transport, sasl := true }
+      let model := match run c [.versions 0 (some (0, 1)) (some (0, 1))] with
+        | some s => if s.log.any (fun i => match i with | .wrote (.saslHandshake _) => true | _ => false) then "authenticated" else "unauthenticated"
+        | none => "reject"
+      let holds := match (commaList journal).mapM parseSeen with
+        | some seen => orderHolds seen && impl != "unauthenticated"
+        | none => false
+      answer model holds
     | ["plain", u, p] =>
       match ofHex u, ofHex p with
       | some u, some p =>
